@@ -188,7 +188,8 @@ def meta_unit(u) -> Stats:
 
 def best_unit(u) -> Stats:
     """get_best_exploitability: per size the minimum mean gap over the sampled games and a set attaining it."""
-    _, n, games, comp, gap_name, max_steps, reps, ps, tag = u
+    _, n, games, comp, gap_name, max_steps, reps, ps, tag = u[:9]
+    pre_steps = tuple(u[9]) if len(u) > 9 else ()      # actions taken on the env BEFORE the search: part of the starting knowledge
     import incomplete_cooperative.gameplay as gp
     from incomplete_cooperative.run.best_states import get_best_exploitability
     st = Stats()
@@ -199,13 +200,19 @@ def best_unit(u) -> Stats:
             g = gens.draw(g[1], g[2], g[3])
             ftol = max(ftol, gens.float_tol(g, n))
         resolved.append(tuple(g))
-    doc = {"engine": "best", "n": n, "games": [list(g) for g in resolved], "computer": comp, "gap": gap_name, "max_steps": max_steps, "reps": reps, "tag": tag}
+    doc = {"engine": "best", "n": n, "games": [list(g) for g in resolved], "computer": comp, "gap": gap_name, "max_steps": max_steps, "reps": reps, "tag": tag,
+           "pre_steps": list(pre_steps)}
     base = A.kmask(A.minimal_ids(n))
     ex = A.explorable_ids(n)
+    for a_ in pre_steps:
+        base |= 1 << ex[a_]
+    ex = tuple(c for c in ex if not base >> c & 1)
     first = None
     for p, name, a in ps:
         script = envs.Script(resolved)
         env = envs.make_env(n, script, comp, gaps.registry()[gap_name])
+        for a_ in pre_steps:
+            env.step(a_)
         start = script.calls
         try:
             with detpool.patched([gp], detpool.Schedule(lambda m, pp, a=a: [a[i % len(a)] % pp for i in range(m)], name, max_workers=max(a) + 1)):
@@ -335,6 +342,9 @@ def run(run: Run) -> None:
     us.append(("best", 4, [surplus4, A.scaled(surplus4, 2.0)], SA[1], "l1_norm", 4 if quick else 5, 2, sched_small[:2], "surplus4"))
     surplus3 = tuple(float(A.popcount(s)) + (1.0 if s == 7 else 0.0) for s in range(8))
     us.append(("best", 3, [surplus3, tuple([0.0] * 8)], SA[0], "linf_norm", 3, 2, sched_small[:3], "surplus3+zero"))
+    # the search started from an environment that has already revealed coalitions (they belong to the starting knowledge)
+    us.append(("best", 3, picks3[:3], SA[0], "l1_norm", 2, 2, sched_small[:3], "after-step3", (1,)))
+    us.append(("best", 4, picks4[:2], SA[1], "exploitability", 2, 2, sched_small[:2], "after-steps4", (4, 0)))
     # tiny units (every gap below 1e-8) and a near-tie (one coalition worth 2^-20 more in a symmetric game)
     us.append(("best", 3, [A.scaled(picks3[0], A.TINY), A.scaled(picks3[1], A.TINY)], SA[1], "l1_norm", 3, 2, sched_small[:2], "tiny3"))
     sym4 = [float(A.popcount(s) ** 2) for s in range(16)]
@@ -372,6 +382,6 @@ def replay(doc: dict):
     else:
         p = doc.get("processes", 1)
         st = best_unit(("best", doc["n"], [tuple(g) for g in doc["games"]], doc["computer"], doc["gap"], doc["max_steps"], doc["reps"],
-                        [(p, "replay", list(range(min(p, 4))))], "replay"))
+                        [(p, "replay", list(range(min(p, 4))))], "replay", tuple(doc.get("pre_steps", ()))))
     msgs = [v["message"] for v in st.violations]
     return bool(msgs), "; ".join(msgs) if msgs else "exhaustive search agrees with the independent enumeration on this configuration"
